@@ -543,13 +543,12 @@ func vfGenC17E2E(t *rapid.T) vfScenCase {
 	for len(sc.Items) < 50 {
 		sc.Items = append(sc.Items, vfItem{K: vfItFrame, On: rapid.IntRange(0, 3).Draw(t, "padm") == 0})
 	}
-	// test-recording requests on frames where no motion recording can start (name clash, DESIGN.md O1):
-	// a frame without wanted motion never starts one
+	// test-recording requests at arbitrary frames, also on frames that trigger a motion recording
 	nreq := rapid.IntRange(0, 2).Draw(t, "nreq")
 	pos := 0
 	for q := 0; q < nreq; q++ {
 		at := pos + rapid.IntRange(0, 20).Draw(t, "reqat")
-		for at < len(sc.Items) && !(sc.Items[at].K == vfItFrame && !sc.Items[at].On) {
+		for at < len(sc.Items) && sc.Items[at].K != vfItFrame {
 			at++
 		}
 		if at >= len(sc.Items) {
@@ -595,8 +594,8 @@ func vfRunC17E2E(c vfScenCase) *kit.Result {
 		}
 	}
 	for _, q := range c.TestAt {
-		if q < 0 || q >= len(c.Sock.Items) || c.Sock.Items[q].K != vfItFrame || c.Sock.Items[q].On {
-			r.Failf("malformed case: test requests go on still frames")
+		if q < 0 || q >= len(c.Sock.Items) || c.Sock.Items[q].K != vfItFrame {
+			r.Failf("malformed case: test requests go on frames")
 			return r
 		}
 	}
